@@ -83,6 +83,10 @@ func newM3EnvPorts(nSinks int, opts m3.Options, inner func(int), lowPorts bool) 
 		if len(opts.HostPorts) == 1 {
 			// the single-destination spelling of the configuration
 			cfg.HostPort, cfg.HostPorts = opts.HostPorts[0], nil
+		} else if len(opts.HostPorts) > 1 {
+			// configuration files fill the mandatory hostPort as well, usually with
+			// one of the listed destinations: it is not one more destination
+			cfg.HostPort = opts.HostPorts[len(opts.HostPorts)-1]
 		}
 		rep, err = cfg.NewReporter()
 	} else {
@@ -241,6 +245,14 @@ func genM3Tags(r *mon.Rand) map[string]string {
 		return map[string]string{"a": "b", "c": "d"}
 	case 5:
 		return map[string]string{"a": "d", "c": "b"}
+	}
+	if r.Chance(1, 12) {
+		// twins that agree on the concatenation of their keys and values, one with
+		// an empty value
+		if r.Bool() {
+			return map[string]string{"x=y": "", "by": "stander"}
+		}
+		return map[string]string{"x": "y=", "by": "stander"}
 	}
 	n := r.Range(1, 8)
 	if r.Chance(1, 4) {
